@@ -211,8 +211,29 @@ Fixpoint choose_template (rs : list tres) (i : nat) : option nat :=
 (* ---- requirement fragment: In-requirements on zone, capacity type and instance type ---- *)
 Record offering := mkO { o_ct : string; o_zone : string; o_rid : rid; o_avail : bool; o_cap : Z }.
 Record itype := mkIT { it_name : string; it_offs : list offering }.
+(* the reservation-id key may be constrained by pods and NodePools too: absent, In l, or a complement set
+   (NotIn l; Exists = NotIn []), as scheduling.Requirement represents them *)
+Inductive rreq := RAny | RIn (l : list string) | RNotIn (l : list string).
+
 (* None = key not constrained *)
-Record freq := mkF { f_zones : option (list string); f_cts : option (list string); f_its : option (list string) }.
+Record freq := mkF { f_zones : option (list string); f_cts : option (list string); f_its : option (list string);
+                     f_rids : rreq }.
+
+Definition radmits (q : rreq) (r : string) : bool :=
+  match q with RAny => true | RIn l => mem r l | RNotIn l => negb (mem r l) end.
+
+(* Requirement.Intersection *)
+Definition rinter (a b : rreq) : rreq :=
+  match a, b with
+  | RAny, x => x
+  | x, RAny => x
+  | RIn l, RIn k => RIn (filter (fun v => mem v k) l)
+  | RIn l, RNotIn k => RIn (filter (fun v => negb (mem v k)) l)
+  | RNotIn k, RIn l => RIn (filter (fun v => negb (mem v k)) l)
+  | RNotIn l, RNotIn k => RNotIn (l ++ filter (fun v => negb (mem v l)) k)
+  end.
+
+Definition rnonempty (q : rreq) : bool := match q with RIn [] => false | _ => true end.
 
 Definition allows (o : option (list string)) (v : string) : bool :=
   match o with None => true | Some l => mem v l end.
@@ -225,17 +246,25 @@ Definition inter1 (a b : option (list string)) : option (list string) :=
   end.
 
 Definition finter (a b : freq) : freq :=
-  mkF (inter1 (f_zones a) (f_zones b)) (inter1 (f_cts a) (f_cts b)) (inter1 (f_its a) (f_its b)).
+  mkF (inter1 (f_zones a) (f_zones b)) (inter1 (f_cts a) (f_cts b)) (inter1 (f_its a) (f_its b))
+      (rinter (f_rids a) (f_rids b)).
 
 Definition nonempty1 (a : option (list string)) : bool :=
   match a with Some [] => false | _ => true end.
 
 (* Requirements.Compatible on the fragment: every key constrained on both sides must intersect *)
 Definition fcompat (a b : freq) : bool :=
-  let c := finter a b in nonempty1 (f_zones c) && nonempty1 (f_cts c) && nonempty1 (f_its c).
+  let c := finter a b in nonempty1 (f_zones c) && nonempty1 (f_cts c) && nonempty1 (f_its c) && rnonempty (f_rids c).
 
+(* only reserved offerings carry a reservation-id requirement (In [id]) *)
 Definition off_compat (q : freq) (o : offering) : bool :=
-  allows (f_zones q) (o_zone o) && allows (f_cts q) (o_ct o).
+  allows (f_zones q) (o_zone o) && allows (f_cts q) (o_ct o) &&
+  (negb (String.eqb (o_ct o) reserved_ct) || radmits (f_rids q) (o_rid o)).
+
+(* the reservation-id requirement FinalizeScheduling leaves on the NodeClaim: the held ids are intersected into
+   whatever pods and the NodePool required *)
+Definition final_rids (q : freq) (held : list rid) : rreq :=
+  match held with [] => f_rids q | _ => rinter (f_rids q) (RIn held) end.
 
 (* filterInstanceTypesByRequirements with requests that always fit and no minValues *)
 Definition it_ok (q : freq) (it : itype) : bool :=
